@@ -166,6 +166,9 @@ REQS = {
                                                                   ('Accept', 'text/plain, */*;q=0.5')], body=b'n=1&m=two'),
     'pq': dict(method='POST', raw_path='/a/5', query='k=1', headers=[('X-Rid', 'r-pq'), ('Content-Type', 'application/json')],
                body=b'{"q": true}'),
+    # query values with more than 7 percent-escapes (the decoder's long-input path)
+    'u1': dict(method='GET', raw_path='/a/u1', query='q=%41%6C%69%63%65%2D%2D%41%41%41&z=%31', headers=[('X-Rid', 'r-u1')]),
+    'u2': dict(method='GET', raw_path='/a/u2', query='q=%42%6F%62%2D%2D%2D%2D%42%42%42%42%42', headers=[('X-Rid', 'r-u2')]),
     'deny': dict(method='GET', raw_path='/b/4', query='', headers=[('X-Rid', 'r-deny'), ('X-Deny', '1')]),
     'o': dict(method='OPTIONS', raw_path='/a/1', query='', headers=[('X-Rid', 'r-o')]),
     'm': dict(method='DELETE', raw_path='/b/3', query='', headers=[('X-Rid', 'r-m')]),
@@ -492,7 +495,8 @@ def plan(tier, seed):
                     ('full', ('c', 'd'), 'router', 1), ('small', ('a1', 'b2', 'nf'), 'router', 1),
                     # one preemption at ANY line of the framework, on a warm router: requests using different media types,
                     # Accept headers, error paths (shared resolver / negotiation caches, per-request objects)
-                    ('full', ('p1', 'f1'), 'all', 1), ('full', ('e2', 'b2'), 'all', 1), ('full', ('pq', 'a1'), 'all', 1)]
+                    ('full', ('p1', 'f1'), 'all', 1), ('full', ('e2', 'b2'), 'all', 1), ('full', ('pq', 'a1'), 'all', 1),
+                    ('full', ('u1', 'u2'), 'all', 1)]
         aio_cfgs = [('full', ('a1', 'b2'), False), ('full', ('p1', 'p2'), False), ('full', ('p1', 'e1'), True), ('full', ('c', 'e2'), False),
                     # dependent middleware mode: a request rejected half-way down the stack while another is parked at an await
                     ('dep', ('p1', 'deny'), True), ('dep', ('deny', 'p2'), True)]
@@ -502,7 +506,8 @@ def plan(tier, seed):
         thr_cfgs = [('small', ('a1', 'b2'), 'router', 3), ('small', ('a1', 'b2', 'nf'), 'router', 2), ('full', ('c', 'd'), 'router', 2),
                     ('full', ('a1', 'e1'), 'router', 2), ('small', ('a1', 'b2'), 'app', 2), ('full', ('p1', 'b2'), 'app', 1),
                     ('full', ('p1', 'f1'), 'all', 1), ('full', ('e2', 'b2'), 'all', 1), ('full', ('f1', 'p2'), 'all', 1),
-                    ('full', ('a1', 'p1', 'f1'), 'all', 1), ('full', ('o', 'm'), 'all', 1)]
+                    ('full', ('a1', 'p1', 'f1'), 'all', 1), ('full', ('o', 'm'), 'all', 1), ('full', ('u1', 'u2'), 'all', 1),
+                    ('full', ('pq', 'a1'), 'all', 1), ('full', ('u1', 'u2'), 'all', 2)]
         aio_cfgs = [('full', ('a1', 'b2'), False), ('full', ('p1', 'p2'), True), ('full', ('p1', 'e1'), True), ('full', ('c', 'e2'), False),
                     ('full', ('a1', 'p1', 'e2'), False), ('full', ('p1', 'p2', 'nf'), False),
                     ('dep', ('p1', 'deny'), True), ('dep', ('deny', 'p2'), True), ('dep', ('p1', 'deny', 'a1'), True)]
